@@ -4,6 +4,9 @@
    Model/Manifest.v follows python/eups/distrib/server.py with the two one-token repairs
    (Manifest.write: -if flavor-, Dependency.__init__: -distId = None-); the first argument
    true of m_write / m_read / remap selects the repaired code, false the pinned tree.
+   Mapping (add, _apply, apply, merge, inverse) and the manifest.remap reader follow the code with
+   the repairs of proposed_fixes/C18-*.diff; the definitions ending in _pinned follow the tree
+   before them and are used only in the refuted_pinned examples.
 
    Notation.  A file is a str; m_write ... m is the text Manifest.write produces for manifest m
    (noopt = the noOptional argument, fa = the flavor argument, efl = eupsenv.flavor, who/time/ver
@@ -17,7 +20,8 @@
    part of the six-column file. *)
 From Coq Require Import Lia.
 From Eupsv Require Import Base.Base Base.BaseLemmas Model.Manifest Model.ManifestSpec
-  Proofs.ManifestLib Proofs.ManifestText Proofs.ManifestTag Proofs.ManifestMap Proofs.ManifestInv.
+  Proofs.ManifestLib Proofs.ManifestText Proofs.ManifestTag Proofs.ManifestMap Proofs.ManifestInv
+  Proofs.ManifestMerge Proofs.ManifestRemapFile.
 
 (* ================================================================== manifests *)
 
@@ -151,52 +155,55 @@ Proof. vm_compute. repeat split. Qed.
    the Mapping.  says rows fl p v is what the table says about manifest entry (p, v) when the
    running flavor is fl, read off the rows alone: rows of flavor fl before generic rows, the
    row for version v before the row for any, later rows override earlier ones; the winning row
-   either gives a replacement (product, version) or, having no out-version, deletes.
-   entry_ok excludes the two situations of the open findings (see the refuted examples):
-   a deletion that is not a deletion of the whole product, and a row of the running flavor
-   that maps the entry to itself while the generic rows say something else. *)
+   either gives a replacement (product, version) or, having no out-version, deletes. *)
 
 (* remapEntries does to every entry exactly what the table says: entries the table does not
    name are untouched (same record, same position), named ones are replaced by the fresh
-   record of the new product and version, or dropped *)
+   record of the new product and version, or dropped.  For all tables and all lists. *)
 Theorem remap_exact rows fl ds :
-  (forall d, In d ds -> entry_ok rows fl (d_product d) (d_version d) = true) ->
   remap true (m_of_rows rows) fl ds = spec_remap rows fl ds.
 Proof. apply remap_says. Qed.
 Print Assumptions remap_exact.
 
 Corollary remap_untouched rows fl d :
-  entry_ok rows fl (d_product d) (d_version d) = true ->
   says rows fl (d_product d) (d_version d) = None ->
   remap true (m_of_rows rows) fl [d] = [d].
 Proof.
-  intros Hok Hs. rewrite remap_exact by (intros ? [<-|[]]; assumption).
-  cbn [spec_remap flat_map]. unfold spec_remap_dep. now rewrite Hs.
+  intros Hs. rewrite remap_exact. cbn [spec_remap flat_map]. unfold spec_remap_dep. now rewrite Hs.
 Qed.
 Print Assumptions remap_untouched.
 
 Corollary remap_replaced rows fl d q w :
-  entry_ok rows fl (d_product d) (d_version d) = true ->
   says rows fl (d_product d) (d_version d) = Some (Replace q w) ->
   (q, w) <> (d_product d, d_version d) ->
   remap true (m_of_rows rows) fl [d] = [replaced q w].
 Proof.
-  intros Hok Hs Hne. rewrite remap_exact by (intros ? [<-|[]]; assumption).
-  cbn [spec_remap flat_map]. unfold spec_remap_dep. rewrite Hs.
+  intros Hs Hne. rewrite remap_exact. cbn [spec_remap flat_map]. unfold spec_remap_dep. rewrite Hs.
   destruct (str_eqb_spec q (d_product d)) as [->|]; [|reflexivity].
   destruct (str_eqb_spec w (d_version d)) as [->|]; [congruence|reflexivity].
 Qed.
 Print Assumptions remap_replaced.
 
 Corollary remap_deleted rows fl d :
-  entry_ok rows fl (d_product d) (d_version d) = true ->
   says rows fl (d_product d) (d_version d) = Some Delete ->
   remap true (m_of_rows rows) fl [d] = [].
 Proof.
-  intros Hok Hs. rewrite remap_exact by (intros ? [<-|[]]; assumption).
-  cbn [spec_remap flat_map]. unfold spec_remap_dep. now rewrite Hs.
+  intros Hs. rewrite remap_exact. cbn [spec_remap flat_map]. unfold spec_remap_dep. now rewrite Hs.
 Qed.
 Print Assumptions remap_deleted.
+
+(* the same, for Mapping.apply alone *)
+Theorem apply_exact_table rows fl p v :
+  match says rows fl p v with
+  | None => m_apply (m_of_rows rows) p v fl = (p, Some v)
+  | Some (Replace q w) => m_apply (m_of_rows rows) p v fl = (q, Some w)
+  | Some Delete => snd (m_apply (m_of_rows rows) p v fl) = None
+  end.
+Proof.
+  destruct (says rows fl p v) as [[q w|]|] eqn:E;
+    [now apply apply_replaced | now apply apply_deleted | now apply apply_untouched].
+Qed.
+Print Assumptions apply_exact_table.
 
 Definition ex_rows : list row :=
   [ mkRow (lit "doxygen") (lit "1.5.9") None (Some (lit "1.6.3")) (lit "generic");
@@ -205,63 +212,217 @@ Definition ex_rows : list row :=
     mkRow (lit "tcltk") (lit "any") (Some (lit "dummytk")) (Some (lit "1.0")) (lit "DarwinX86") ].
 
 Example remap_hyps_inhabited :
-  forallb (fun d => entry_ok ex_rows (lit "Linux64") (d_product d) (d_version d)) [ex_dep1; ex_dep2; ex_dep3] = true /\
   remap true (m_of_rows ex_rows) (lit "Linux64") [ex_dep1; ex_dep2; ex_dep3] = [ex_dep1; ex_dep2] /\
   remap true (m_of_rows ex_rows) (lit "DarwinX86") [ex_dep3] = [replaced (lit "dummytk") (lit "1.0")].
 Proof. vm_compute. repeat split. Qed.
 
-(* open finding (remap-delete): the row -a:1 None- deletes every version of a, not only 1 *)
-Theorem remap_exact_refuted_delete_version :
-  exists rows fl d,
-    says rows fl (d_product d) (d_version d) = None /\
-    remap true (m_of_rows rows) fl [d] = [] /\
-    entry_ok rows fl (d_product d) (d_version d) = false.
-Proof.
-  exists [mkRow (lit "a") (lit "1") None None (lit "generic")], (lit "generic"),
-         (mkDep (lit "a") (lit "2") None None None None false false []).
-  vm_compute. repeat split.
-Qed.
-Print Assumptions remap_exact_refuted_delete_version.
+Definition mk (p v : string) : dep := mkDep (lit p) (lit v) None None None None false false [].
+Arguments mk (p v)%string.
+Definition remap_pinned := remap_with (m_apply_pinned true).
+Definition remap_pinned27 := remap_with (m_apply_pinned false).
 
-(* open finding (remap-delete): a deletion row next to a replacement row of the same product is lost *)
-Theorem remap_exact_refuted_delete_lost :
-  exists rows fl d,
-    says rows fl (d_product d) (d_version d) = Some Delete /\
-    remap true (m_of_rows rows) fl [d] = [d] /\
-    entry_ok rows fl (d_product d) (d_version d) = false.
-Proof.
-  exists [mkRow (lit "a") (lit "1") None (Some (lit "2")) (lit "generic");
-          mkRow (lit "a") (lit "any") None None (lit "generic")], (lit "generic"),
-         (mkDep (lit "a") (lit "3") None None None None false false []).
-  vm_compute. repeat split.
-Qed.
-Print Assumptions remap_exact_refuted_delete_lost.
+(* the tree before the repair (D26): the row -a:1 None- deleted every version of a, not only 1;
+   the repaired code keeps a 2 *)
+Example remap_exact_refuted_pinned_delete_version :
+  let rows := [mkRow (lit "a") (lit "1") None None (lit "generic")] in
+  says rows (lit "generic") (lit "a") (lit "2") = None /\
+  remap_pinned (m_of_rows_pinned rows) (lit "generic") [mk "a" "2"] = [] /\
+  remap true (m_of_rows rows) (lit "generic") [mk "a" "2"; mk "a" "1"] = [mk "a" "2"].
+Proof. vm_compute. repeat split. Qed.
 
-(* open finding (remap-identity): the Linux64 row sends every a to version 2, the generic row to
-   version 3; the entry a 2 on Linux64 becomes a 3 *)
-Theorem remap_exact_refuted_identity :
-  exists rows fl d,
-    says rows fl (d_product d) (d_version d) = Some (Replace (d_product d) (d_version d)) /\
-    remap true (m_of_rows rows) fl [d] = [replaced (lit "a") (lit "3")] /\
-    entry_ok rows fl (d_product d) (d_version d) = false.
+(* the tree before the repair (D26): a deletion row next to a replacement row of the same product
+   was lost *)
+Example remap_exact_refuted_pinned_delete_lost :
+  let rows := [mkRow (lit "a") (lit "1") None (Some (lit "2")) (lit "generic");
+               mkRow (lit "a") (lit "any") None None (lit "generic")] in
+  says rows (lit "generic") (lit "a") (lit "3") = Some Delete /\
+  remap_pinned (m_of_rows_pinned rows) (lit "generic") [mk "a" "3"] = [mk "a" "3"] /\
+  remap true (m_of_rows rows) (lit "generic") [mk "a" "3"; mk "a" "1"] = [replaced (lit "a") (lit "2")].
+Proof. vm_compute. repeat split. Qed.
+
+(* the tree before the repair (D27): the Linux64 row sends every a to version 2, the generic row
+   to version 3; the entry a 2 on Linux64 became a 3 (with or without the repair of D26) *)
+Example remap_exact_refuted_pinned_identity :
+  let rows := [mkRow (lit "a") (lit "any") None (Some (lit "2")) (lit "Linux64");
+               mkRow (lit "a") (lit "any") None (Some (lit "3")) (lit "generic")] in
+  says rows (lit "Linux64") (lit "a") (lit "2") = Some (Replace (lit "a") (lit "2")) /\
+  remap_pinned (m_of_rows_pinned rows) (lit "Linux64") [mk "a" "2"] = [replaced (lit "a") (lit "3")] /\
+  remap_pinned27 (m_of_rows rows) (lit "Linux64") [mk "a" "2"] = [replaced (lit "a") (lit "3")] /\
+  remap true (m_of_rows rows) (lit "Linux64") [mk "a" "2"] = [mk "a" "2"].
+Proof. vm_compute. repeat split. Qed.
+
+(* ================================================================== merged tables *)
+
+(* Mapping.merge(other, overwrite) is the row-wise union of the two tables: every lookup
+   (flavor, product, version) in the merged table is the lookup in the table that takes
+   precedence when it has such a row, else the lookup in the other one.  fm_nodup: the
+   dictionaries have no duplicate keys, which holds of every table built by add and merge. *)
+Theorem merge_lookup m o ow f p k :
+  fm_nodup (mp_map o) ->
+  fm_get (mp_map (m_merge m o ow)) f p k =
+  if ow then match fm_get (mp_map o) f p k with Some x => Some x | None => fm_get (mp_map m) f p k end
+  else match fm_get (mp_map m) f p k with Some x => Some x | None => fm_get (mp_map o) f p k end.
 Proof.
-  exists [mkRow (lit "a") (lit "any") None (Some (lit "2")) (lit "Linux64");
-          mkRow (lit "a") (lit "any") None (Some (lit "3")) (lit "generic")], (lit "Linux64"),
-         (mkDep (lit "a") (lit "2") None None None None false false []).
-  vm_compute. repeat split.
+  intros H. rewrite <- !mget_fm_get. cbn [m_merge mp_map]. rewrite mget_fm_merge by assumption.
+  destruct ow; reflexivity.
 Qed.
-Print Assumptions remap_exact_refuted_identity.
+Print Assumptions merge_lookup.
+
+(* laws, up to the equality of all lookups: the empty table is neutral, merge is idempotent and
+   associative, and merging without overwrite is merging the other way round with overwrite *)
+Theorem merge_laws a b c ow :
+  fm_nodup a -> fm_nodup b -> fm_nodup c ->
+  fm_merge a [] ow = a /\ fm_equiv (fm_merge [] a ow) a /\ fm_equiv (fm_merge a a ow) a /\
+  fm_equiv (fm_merge (fm_merge a b ow) c ow) (fm_merge a (fm_merge b c ow) ow) /\
+  fm_equiv (fm_merge a b false) (fm_merge b a true) /\
+  fm_nodup (fm_merge a b ow).
+Proof.
+  intros Ha Hb Hc. split; [reflexivity|]. split; [now apply merge_empty_l|]. split; [now apply merge_idem|].
+  split; [now apply merge_assoc|]. split; [now apply merge_flip|]. now apply fm_merge_nodup.
+Qed.
+Print Assumptions merge_laws.
+
+(* the merged table of two remap tables is the table of the concatenated rows, the rows of the
+   table that takes precedence last *)
+Theorem merge_is_concatenation a b ow :
+  fm_equiv (mp_map (m_merge (m_of_rows a) (m_of_rows b) ow))
+           (mp_map (m_of_rows (if ow then a ++ b else b ++ a))).
+Proof. apply merge_rows. Qed.
+Print Assumptions merge_is_concatenation.
+
+(* remapEntries with the rows of the manifest.remap files merged under the rows passed in (a per-user
+   or rebuild table over a server table) does exactly what all the rows together say *)
+Theorem remap_merged_exact extra files fl ds :
+  remap true (m_merge (m_of_rows extra) (m_of_rows files) false) fl ds = spec_remap (files ++ extra) fl ds.
+Proof. apply remap_merged_says. Qed.
+Print Assumptions remap_merged_exact.
+
+(* the tree before the repair: merge took the flavors for products and the products for versions, so
+   the unit kept or replaced was the whole dictionary of a product; the file row for a 2 was lost
+   when the table passed in had a row for a 1 *)
+Example merge_refuted_pinned :
+  let extra := [mkRow (lit "a") (lit "1") None (Some (lit "5")) (lit "generic")] in
+  let files := [mkRow (lit "a") (lit "2") None (Some (lit "6")) (lit "generic")] in
+  says (files ++ extra) (lit "generic") (lit "a") (lit "2") = Some (Replace (lit "a") (lit "6")) /\
+  remap true (m_merge_pinned (m_of_rows extra) (m_of_rows files) false) (lit "generic") [mk "a" "2"] = [mk "a" "2"] /\
+  remap true (m_merge (m_of_rows extra) (m_of_rows files) false) (lit "generic") [mk "a" "2"]
+    = [replaced (lit "a") (lit "6")].
+Proof. vm_compute. repeat split. Qed.
+
+(* ================================================================== remap files *)
+
+(* remap_rows mode text: the rows the lines of a manifest.remap file name when the mode asked for
+   is mode (None on installation, create when a distribution is made): comments and blank lines
+   dropped, a line with a bracketed prefix applies exactly when the prefix is the mode, a line
+   without prefix exactly when no mode is asked for, verbose lines skipped, each remaining line
+   -product[:version] [[outProduct:]outVersion] [flavor]- one row.  Err Crash: a field that begins
+   with a colon (AttributeError in the code). *)
+
+(* the reader adds exactly the rows of the file, in the order of the file *)
+Theorem read_remap_adds_rows ow mode text m :
+  read_remap ow mode text m =
+  match remap_rows mode text with
+  | Ok rows => Ok (fold_left (add_row_ow ow) rows m)
+  | Err e => Err e
+  end.
+Proof. apply read_remap_rows. Qed.
+Print Assumptions read_remap_adds_rows.
+
+(* remapEntries(mapping, mode) with manifest.remap files: the entries are treated exactly as the
+   rows of the files (in the order of hooks.customisationDirs) followed by the rows passed in say *)
+Theorem remap_entries_exact extra texts mode fl ds frows :
+  files_rows mode texts = Ok frows ->
+  remap_entries true (m_of_rows extra) texts mode fl ds =
+  Ok (m_merge (m_of_rows extra) (m_of_rows frows) false, spec_remap (frows ++ extra) fl ds).
+Proof. apply remap_entries_says. Qed.
+Print Assumptions remap_entries_exact.
+
+(* Mapping.__str__ prints a table in the format of manifest.remap; reading the print back gives a
+   table that answers every lookup as the printed one (python: equal dictionaries), hence remaps
+   alike.  wf_table: fields are words free of hash signs, in-products free of colons and equals
+   signs and not opening a bracket, in-versions not the capitalised Any, out-versions none of
+   any / none / None / noreinstall, removal rows carry the in-product *)
+Theorem remap_print_parse m :
+  wf_table m = true -> fm_nodup (mp_map m) ->
+  exists m', read_remap true None (m_print m) empty_mapping = Ok m' /\
+             fm_equiv (mp_map m') (mp_map m) /\ mp_nore m' = [] /\
+             forall fl ds, remap true m' fl ds = remap true m fl ds.
+Proof.
+  intros Hwf Hnd. destruct (print_parse_lemma m Hwf Hnd) as [m' [H1 [H2 H3]]].
+  exists m'. repeat split; auto. intros fl ds. now apply remap_equiv.
+Qed.
+Print Assumptions remap_print_parse.
+
+Corollary remap_print_parse_table rows :
+  wf_table (m_of_rows rows) = true ->
+  exists m', read_remap true None (m_print (m_of_rows rows)) empty_mapping = Ok m' /\
+             forall fl ds, remap true m' fl ds = spec_remap rows fl ds.
+Proof.
+  intros Hwf. destruct (remap_print_parse _ Hwf (m_of_rows_nodup rows)) as [m' [H1 [_ [_ H4]]]].
+  exists m'. split; [assumption|]. intros fl ds. now rewrite H4, remap_exact.
+Qed.
+Print Assumptions remap_print_parse_table.
+
+(* the example of the documentation of remapEntries *)
+Definition nl1 : str := [c_nl].
+Definition ex_file : str :=
+  lit "# a comment" ++ nl1 ++
+  lit "doxygen:1.5.9                1.6.3" ++ nl1 ++
+  lit "python:Any                   2.6.2   # any python" ++ nl1 ++
+  nl1 ++
+  lit "tcltk                        None" ++ nl1 ++
+  lit "tcltk:*                      dummy:1.0               DarwinX86" ++ nl1 ++
+  lit "[create]afwdata              None" ++ nl1 ++
+  lit "verbose = 1" ++ nl1.
+
+Example remap_file_inhabited :
+  remap_rows None ex_file =
+    Ok [ mkRow (lit "doxygen") (lit "1.5.9") (Some (lit "doxygen")) (Some (lit "1.6.3")) (lit "generic");
+         mkRow (lit "python") (lit "any") (Some (lit "python")) (Some (lit "2.6.2")) (lit "generic");
+         mkRow (lit "tcltk") (lit "any") (Some (lit "tcltk")) None (lit "generic");
+         mkRow (lit "tcltk") (lit "*") (Some (lit "dummy")) (Some (lit "1.0")) (lit "DarwinX86") ] /\
+  remap_rows (Some (lit "create")) ex_file =
+    Ok [ mkRow (lit "afwdata") (lit "any") (Some (lit "afwdata")) None (lit "generic") ] /\
+  wf_table (m_of_rows ex_rows) = true /\
+  m_print (m_of_rows [mkRow (lit "tcltk") (lit "any") None None (lit "generic");
+                      mkRow (lit "a") (lit "1") (Some (lit "b")) (Some (lit "2")) (lit "Linux64")])
+    = lit "tcltk:any    None    generic" ++ nl1 ++ lit "a:1    b:2    Linux64" ++ nl1.
+Proof. vm_compute. repeat split. Qed.
+
+(* the tree before the repair: remapEntries passed its mode in the place of overwrite, so the reader
+   saw no mode; the create line was applied on installation too (afwdata dropped although no line
+   for installation names it), and the lines for installation were applied when creating *)
+Example remap_mode_refuted_pinned :
+  (exists m, read_remap_pinned None ex_file empty_mapping = Ok m /\
+             remap true m (lit "Linux64") [mk "afwdata" "1"] = []) /\
+  (exists m, read_remap true None ex_file empty_mapping = Ok m /\
+             remap true m (lit "Linux64") [mk "afwdata" "1"] = [mk "afwdata" "1"]) /\
+  (exists m, read_remap_pinned (Some (lit "create")) ex_file empty_mapping = Ok m /\
+             remap true m (lit "Linux64") [mk "doxygen" "1.5.9"] = [replaced (lit "doxygen") (lit "1.6.3")]) /\
+  (exists m, read_remap true (Some (lit "create")) ex_file empty_mapping = Ok m /\
+             remap true m (lit "Linux64") [mk "doxygen" "1.5.9"; mk "afwdata" "1"] = [mk "doxygen" "1.5.9"]).
+Proof. repeat split; eexists; (split; [vm_compute; reflexivity|vm_compute; reflexivity]). Qed.
+
+(* an entry replaced by version dummy of a product without such a version is declared on the way
+   (at most once); the list that comes back does not depend on it *)
+Example remap_dummy_inhabited :
+  let rows := [mkRow (lit "tcltk") (lit "any") (Some (lit "tk")) (Some (lit "dummy")) (lit "generic")] in
+  remap_declares (m_of_rows rows) (lit "Linux64") [] [mk "tcltk" "8.5"; mk "a" "1"; mk "tcltk" "8.6"] = [lit "tk"] /\
+  remap_declares (m_of_rows rows) (lit "Linux64") [lit "tk"] [mk "tcltk" "8.5"] = [].
+Proof. vm_compute. repeat split. Qed.
 
 (* ================================================================== inverse *)
 
 (* m_rows m: the rows (flavor, inProduct, inVersion, outProduct, outVersion) Mapping.inverse
-   visits.  invertible_row: explicit versions on both sides (no any), nothing that add would
-   take for the noreinstall keyword or for -absent-, no entry mapped to itself.
-   one_to_one m fl: seen from the running flavor fl (its own rows before the generic ones) no
-   two named entries are sent to the same target.  fm_nodup: the dictionaries have no
-   duplicate keys, which holds of every Mapping built by add (inverse_undoes_table). *)
+   visits; a row without out-version is a removal and is skipped.  invertible_row: a replacement
+   row has explicit versions on both sides (no any) and nothing that add would take for the
+   noreinstall keyword or for -absent-.  one_to_one m fl: seen from the running flavor fl (its own
+   rows before the generic ones) no two named entries that are kept are sent to the same target.
+   fm_nodup: the dictionaries have no duplicate keys, which holds of every Mapping built by add
+   (inverse_undoes_table). *)
 
-(* for a one-to-one mapping the inverse undoes apply on every entry the mapping names *)
+(* for a one-to-one mapping the inverse undoes apply on every entry the mapping names and keeps;
+   rows that map an entry to itself and removal rows are allowed *)
 Theorem inverse_undoes m inv fl p v q w :
   fm_nodup (mp_map m) ->
   forallb invertible_row (m_rows m) = true -> one_to_one m fl = true ->
@@ -282,38 +443,40 @@ Corollary inverse_undoes_table rows inv fl p v q w :
 Proof. apply inverse_undoes. apply m_of_rows_nodup. Qed.
 Print Assumptions inverse_undoes_table.
 
-(* two rows of one flavor with the same target: inverse raises *)
+(* two replacement rows of one flavor with the same target: inverse raises *)
 Theorem inverse_rejects_non_injective m R1 r1 R2 r2 R3 :
   forallb invertible_row (m_rows m) = true ->
-  m_rows m = R1 ++ r1 :: R2 ++ r2 :: R3 -> row_target r1 = row_target r2 ->
+  m_rows m = R1 ++ r1 :: R2 ++ r2 :: R3 -> live_row r1 = true -> row_target r1 = row_target r2 ->
   m_inverse m = Err Refused.
-Proof. intros H1 H2 H3. eapply inverse_rejects_lemma; eauto. Qed.
+Proof. intros H1 H2 H3 H4. eapply inverse_rejects_lemma; eauto. Qed.
 Print Assumptions inverse_rejects_non_injective.
 
-(* and only then: with pairwise different targets inverse succeeds *)
+(* and only then: with pairwise different targets of the replacement rows inverse succeeds *)
 Theorem inverse_accepts_injective m :
-  forallb invertible_row (m_rows m) = true -> NoDup (map row_target (m_rows m)) ->
+  forallb invertible_row (m_rows m) = true -> NoDup (map row_target (filter live_row (m_rows m))) ->
   exists inv, m_inverse m = Ok inv.
-Proof.
-  intros H1 H2. apply inverse_accepts_lemma; [assumption|].
-  erewrite map_ext; [exact H2|]. apply tgt_row_target.
-Qed.
+Proof. intros H1 H2. apply inverse_accepts_lemma; [assumption|]. now apply NoDup_tgt_lives. Qed.
 Print Assumptions inverse_accepts_injective.
 
 Definition ex_inv_rows : list row :=
   [ mkRow (lit "a") (lit "1") None (Some (lit "2")) (lit "generic");
     mkRow (lit "b") (lit "1") (Some (lit "c")) (Some (lit "7")) (lit "generic");
-    mkRow (lit "a") (lit "1") (Some (lit "d")) (Some (lit "4")) (lit "Linux64") ].
+    mkRow (lit "a") (lit "1") (Some (lit "d")) (Some (lit "4")) (lit "Linux64");
+    mkRow (lit "k") (lit "1") None (Some (lit "1")) (lit "Linux64");
+    mkRow (lit "k") (lit "1") None (Some (lit "9")) (lit "generic");
+    mkRow (lit "z") (lit "any") None None (lit "generic") ].
 
 Example inverse_hyps_inhabited :
   forallb invertible_row (m_rows (m_of_rows ex_inv_rows)) = true /\
   one_to_one (m_of_rows ex_inv_rows) (lit "Linux64") = true /\
   in_dom (m_of_rows ex_inv_rows) (lit "Linux64") (lit "a") (lit "1") = true /\
   m_apply (m_of_rows ex_inv_rows) (lit "a") (lit "1") (lit "Linux64") = (lit "d", Some (lit "4")) /\
+  m_apply (m_of_rows ex_inv_rows) (lit "k") (lit "1") (lit "Linux64") = (lit "k", Some (lit "1")) /\
   exists inv, m_inverse (m_of_rows ex_inv_rows) = Ok inv /\
               m_apply inv (lit "d") (lit "4") (lit "Linux64") = (lit "a", Some (lit "1")) /\
-              m_apply inv (lit "c") (lit "7") (lit "Linux64") = (lit "b", Some (lit "1")).
-Proof. do 4 (split; [vm_compute; reflexivity|]). vm_compute. eexists. split; [reflexivity|]. split; reflexivity. Qed.
+              m_apply inv (lit "c") (lit "7") (lit "Linux64") = (lit "b", Some (lit "1")) /\
+              m_apply inv (lit "k") (lit "1") (lit "Linux64") = (lit "k", Some (lit "1")).
+Proof. do 5 (split; [vm_compute; reflexivity|]). vm_compute. eexists. split; [reflexivity|]. repeat split. Qed.
 
 Example inverse_rejects_inhabited :
   m_inverse (m_of_rows [ mkRow (lit "a") (lit "1") None (Some (lit "3")) (lit "generic");
